@@ -1,6 +1,6 @@
 #!/bin/sh
 # tools/round2.sh <ID> <A|B> [check ids...]  -- confirms a round-2 seeded change from /tmp/seed2 on /repo HEAD and runs the given quick checks on it
-ID="$1"; X="$2"; shift 2; D=/tmp/seed2/$ID/$X
+ID="$1"; X="$2"; shift 2; D=${SEEDDIR:-/tmp/seed2}/$ID/$X
 cd /repo || exit 9
 git diff --quiet || { echo "repo dirty"; exit 9; }
 PYTHONPATH=/repo/src /venv/bin/python $D/demo.py >/dev/null 2>&1; echo "demo_without=$?"
